@@ -580,6 +580,8 @@ protected:
               ConditionalConstraint< QuadConRhs<0> >
               { { std::move(lhs.GetAlgConBody()),
                   -lhs.constant_term() } } );
+    if (eq.is_constant())                        // equality preprocessed to true/false
+      return EExpr::Constant{ 0.0==eq.constant_term() ? 1.0 : 0.0 };
     assert(eq.is_variable());
     return AssignResult2Args(
           NotConstraint({eq.get_representing_variable()}));
